@@ -7,6 +7,8 @@ use vstd::prelude::*;
 use vstd::string::*;
 verus! {
 
+//@include contracts/shared/await.rs
+#[derive(Clone, Copy)]
 pub struct Duration { pub d: u64 }
 pub enum StdStream { Tcp(u8), Unix(u8), Invalid }
 // src/conn.rs LdapConnSettings, the fields this prefix touches (tls-native build)
@@ -41,7 +43,7 @@ pub uninterp spec fn host_port_of(h: &str, port: u16) -> Seq<char>;
 pub fn verif_host_port(h: &str, port: u16) -> (r: String) ensures r@ == host_port_of(h, port) { unimplemented!() }
 #[verifier::external_body]
 pub fn verif_string_of(s: &str) -> (r: String) ensures r@ == s@ { unimplemented!() }
-pub enum LdapError { UnknownScheme(String), MismatchedStreamType, Other(u8) }
+pub enum LdapError { UnknownScheme(String), MismatchedStreamType, Timeout, Other(u8) }
 pub type Result<T> = core::result::Result<T, LdapError>;
 
 // what the prefix computes: the scheme to continue with, the settings, and the address to connect to
@@ -72,5 +74,51 @@ pub struct Resolved<'a> { pub scheme: &'a str, pub settings: LdapConnSettings, p
         })),
 //@end
 
+
+// ---- from_url_with_settings: ldapi goes to the Unix-socket path; everything else to TCP, and a connection timeout wraps the
+// WHOLE TCP establishment (new_tcp includes StartTLS and the TLS handshake)
+pub struct Pair { pub g: u8 }      // (LdapConnAsync, Ldap)
+pub uninterp spec fn unix_outcome(url: Url, settings: LdapConnSettings) -> Result<Pair>;
+pub uninterp spec fn tcp_outcome(url: Url, settings: LdapConnSettings) -> Result<Pair>;
+pub uninterp spec fn timed_out(d: Duration, url: Url, settings: LdapConnSettings) -> bool;   // prophecy: the timer fires first
+pub struct TcpFut { pub url: Ghost<Url>, pub settings: Ghost<LdapConnSettings> }
+pub struct UnixFut { pub url: Ghost<Url>, pub settings: Ghost<LdapConnSettings> }
+pub struct TimedFut { pub d: Duration, pub inner: TcpFut }
+pub struct Elapsed { pub g: u8 }
+impl TcpFut { #[verifier::external_body] pub fn verif_await(self) -> (r: Result<Pair>) ensures r == tcp_outcome(self.url@, self.settings@) { unimplemented!() } }
+impl UnixFut { #[verifier::external_body] pub fn verif_await(self) -> (r: Result<Pair>) ensures r == unix_outcome(self.url@, self.settings@) { unimplemented!() } }
+impl TimedFut {
+    #[verifier::external_body]
+    pub fn verif_await(self) -> (r: core::result::Result<Result<Pair>, Elapsed>)
+        ensures r == (if timed_out(self.d, self.inner.url@, self.inner.settings@) { Err::<Result<Pair>, Elapsed>(Elapsed { g: 0 }) } else { Ok::<Result<Pair>, Elapsed>(tcp_outcome(self.inner.url@, self.inner.settings@)) })
+    { unimplemented!() }
+}
+pub struct time { }
+impl time { #[verifier::external_body] pub fn timeout(d: Duration, f: TcpFut) -> (r: TimedFut) ensures r.d == d, r.inner == f { unimplemented!() } }
+pub struct LdapConnAsync { }
+impl LdapConnAsync {
+    #[verifier::external_body] pub fn new_unix(url: &Url, settings: LdapConnSettings) -> (f: UnixFut) ensures f.url@ == *url, f.settings@ == settings { unimplemented!() }
+    #[verifier::external_body] pub fn new_tcp(url: &Url, settings: LdapConnSettings) -> (f: TcpFut) ensures f.url@ == *url, f.settings@ == settings { unimplemented!() }
+}
+impl vstd::std_specs::convert::FromSpecImpl<Elapsed> for LdapError { open spec fn obeys_from_spec() -> bool { true } open spec fn from_spec(e: Elapsed) -> LdapError { LdapError::Timeout } }
+impl From<Elapsed> for LdapError { #[verifier::external_body] fn from(e: Elapsed) -> (r: LdapError) { unimplemented!() } }
+#[verifier::external_body]
+pub fn verif_str_eq(a: &str, b: &str) -> (r: bool) ensures r == (a == b) { unimplemented!() }
+
+//@lift name=from_url_with_settings file=src/conn.rs fn=from_url_with_settings
+//@ sub "Result<(Self, Ldap)>" => "Result<Pair>"
+//@ sub "url.scheme() == \"ldapi\"" => "verif_str_eq(url.scheme(), \"ldapi\")"
+//@ ret r
+//@ spec
+    ensures
+        url.scheme_of() == "ldapi" ==> r == unix_outcome(*url, settings), //# C18.ldapi_goes_to_the_unix_socket_path
+        url.scheme_of() != "ldapi" ==> ({
+            let s2 = LdapConnSettings { conn_timeout: None, starttls: settings.starttls, no_tls_verify: settings.no_tls_verify, std_stream: settings.std_stream };
+            match settings.conn_timeout {
+                // the timer runs against the whole TCP establishment, StartTLS and TLS handshake included
+                Some(t) => if timed_out(t, *url, s2) { r is Err } else { r == tcp_outcome(*url, s2) },
+                None => r == tcp_outcome(*url, s2),
+            } }), //# C18.connection_timeout_bounds_the_whole_tcp_establishment
+//@end
 } // verus!
 fn main() {}
